@@ -300,3 +300,137 @@ class ReadResponseBody(_ReadBody):
                           st.ghost['n_decompress'] == 0)
         return {0: LoopSpec(inv=inv, havoc_heap=['L'])}
     doc = 'response side: same obligations as C17.read_request_body'
+
+
+# ---------------------------------------------------------------------------------------------------------------
+# "enabled locally" is a live configuration: provider / consumer own one list of enabled codings, hand that very list
+# to their http server and soap clients, and set_used_compression() changes it in place. The coding choice proved above
+# (C17.compress_choice, C17.read_*_body) speaks about the *current* configuration only if nobody takes a private copy.
+HS = 'sdc11073.httpserver.httpserverimpl'
+SC = 'sdc11073.pysoap.soapclient'
+
+
+class _KeepsTheList(FnCheck):
+    prop = 'C17'
+    opaque_ok = True
+    tag = 'S'
+    stable_fields = ('supported_encodings',)
+    arg_names: tuple = ()
+    cls = None
+
+    def setup(self, b):
+        ids = b.ex.ctx.builtin_class_ids
+        self.enc = b.obj('supported_encodings')
+        b.st.assume(z3.Select(b.st.get_arr('C'), self.enc.e) == ids['list'])
+        self.seq0 = z3.Select(b.st.get_arr('L'), self.enc.e)
+        self.o = b.obj('self', cls=self.cls)
+        b.distinct(self.o, self.enc)
+        kwargs = {}
+        args = []
+        for n in self.arg_names:
+            if n == 'supported_encodings':
+                args.append(self.enc)
+            else:
+                args.append(b.any(n))
+        return self.o, args, kwargs
+
+    def post(self, ex, st0, st, outcome, b):
+        if outcome[0] == 'exc':
+            return
+        ex.oblige(st, 'keeps_the_callers_list_object', field(st, self.o, 'supported_encodings') == Val.ref(self.enc.e))
+
+
+from pyvc.api import field   # noqa: E402
+
+
+@register
+class HttpServerKeepsList(_KeepsTheList):
+    id = 'C17.http_server_uses_live_configuration'
+    cls = (HS, '_ThreadingHTTPServer')
+    target = f'{HS}:_ThreadingHTTPServer.__init__'
+    arg_names = ('logger', 'server_address', 'chunk_size', 'supported_encodings')
+    doc = ('_ThreadingHTTPServer.__init__ stores the very list object it is given as supported_encodings (no copy, no '
+           'conversion): later in-place changes of the enabled codings are seen by the request handlers')
+
+
+@register
+class HttpServerThreadKeepsList(_KeepsTheList):
+    id = 'C17.http_server_thread_uses_live_configuration'
+    cls = (HS, 'HttpServerThreadBase')
+    target = f'{HS}:HttpServerThreadBase.__init__'
+    arg_names = ('my_ipaddress', 'ssl_context', 'supported_encodings', 'logger')
+    doc = 'HttpServerThreadBase.__init__ stores the very list object it is given as supported_encodings'
+
+
+@register
+class SoapClientKeepsList(_KeepsTheList):
+    id = 'C17.soap_client_uses_live_configuration'
+    cls = (SC, 'SoapClient')
+    target = f'{SC}:SoapClient.__init__'
+    arg_names = ('netloc', 'socket_timeout', 'logger', 'ssl_context', 'sdc_definitions', 'msg_reader', 'supported_encodings')
+    doc = 'SoapClient.__init__ stores the very list object it is given as supported_encodings (when one is given)'
+
+
+@register
+class HttpServerThreadPassesList(FnCheck):
+    id = 'C17.http_server_thread_passes_live_configuration'
+    prop = 'C17'
+    opaque_ok = True
+    tag = 'S'
+    target = f'{HS}:HttpServerThreadBase.run'
+    doc = 'HttpServerThreadBase.run creates the http server with the list object stored in self.supported_encodings'
+
+    def setup(self, b):
+        self.enc = b.obj('supported_encodings')
+        self.o = b.obj('self', cls=(HS, 'HttpServerThreadBase'), supported_encodings=self.enc)
+        b.distinct(self.o, self.enc)
+        b.st.ghost['srv'] = ()
+        return self.o, [], {}
+
+    def callees(self, ex):
+        def server(ex_, st, args, kwargs):
+            enc = kwargs.get('supported_encodings', args[3] if len(args) > 3 else None)
+            st.ghost['srv'] = st.ghost['srv'] + ((st.box(enc) if enc is not None else None),)
+            return [(st.fork(), Raise(ex_.mk_exc('OSError', 'bind'))), (st, st.alloc('HTTPServer'))]
+        return {f'{HS}:_ThreadingHTTPServer': Pure(server, name='_ThreadingHTTPServer(...) (C17.http_server_uses_live_configuration)')}
+
+    def post(self, ex, st0, st, outcome, b):
+        srv = st.ghost['srv']
+        if outcome[0] == 'exc' and not srv:
+            return
+        ex.oblige(st, 'server_created_with_the_stored_list', z3.BoolVal(False) if len(srv) != 1 or srv[0] is None
+                  else srv[0] == Val.ref(self.enc.e))
+
+
+def _mk_set_used_compression(qual, cid, who):
+    class SetUsedCompression(FnCheck):
+        id = cid
+        prop = 'C17'
+        target = qual
+        doc = (f'{who}.set_used_compression(*codings) changes the list of enabled codings in place: the list object '
+               'shared with the http server / soap clients stays the same and afterwards holds exactly the given codings')
+
+        def setup(self, b):
+            ids = b.ex.ctx.builtin_class_ids
+            self.lst = b.obj('_compression_methods')
+            b.st.assume(z3.Select(b.st.get_arr('C'), self.lst.e) == ids['list'])
+            self.o = b.obj('self', _compression_methods=self.lst)
+            b.distinct(self.o, self.lst)
+            self.a, self.b_ = b.str('coding1'), b.str('coding2')
+            return self.o, [self.a, self.b_], {}
+
+        def post(self, ex, st0, st, outcome, b):
+            if outcome[0] == 'exc':
+                ex.oblige(st, 'never_raises', z3.BoolVal(False), info={'exc': repr(outcome[1])})
+                return
+            ex.oblige(st, 'same_list_object', field(st, self.o, '_compression_methods') == Val.ref(self.lst.e))
+            ex.oblige(st, 'list_holds_exactly_the_given_codings', st.list_seq(self.lst) == z3.Concat(
+                z3.Unit(Val.str(self.a.e)), z3.Unit(Val.str(self.b_.e))))
+    SetUsedCompression.__name__ = 'SetUsedCompression_' + who
+    return SetUsedCompression
+
+
+register(_mk_set_used_compression('sdc11073.provider.providerimpl:SdcProvider.set_used_compression',
+                                  'C17.provider_set_used_compression', 'SdcProvider'))
+register(_mk_set_used_compression('sdc11073.consumer.consumerimpl:SdcConsumer.set_used_compression',
+                                  'C17.consumer_set_used_compression', 'SdcConsumer'))
